@@ -62,6 +62,28 @@ func genC05(seed uint64, r *rng.Rand) *Plan {
 		}
 		p.Tasks = append(p.Tasks, Task{Ops: ops})
 	}
+	// in a third of the runs some requests are answered "try again" or "not
+	// here", or their region changes: the retried request is serialised again
+	// and must still say exactly what the caller built
+	if g.R.Chance(0.33) {
+		for i, n := 0, g.R.Range(1, 3); i < n; i++ {
+			ts := &p.Layout.Tables[g.R.Intn(len(p.Layout.Tables))]
+			f := &Fault{On: "exec", N: g.R.Range(1, 25), Table: ts.Name, Region: g.R.Intn(5), Server: g.R.Intn(p.Layout.Servers), To: g.R.Intn(p.Layout.Servers)}
+			switch g.R.Intn(5) {
+			case 0, 1:
+				f.Act = "rule"
+				f.Rule = &hb.Rule{Class: hb.RetryableClasses[g.R.Intn(len(hb.RetryableClasses))], Count: g.R.Range(1, 3), Server: -1, Level: []string{"action", "region", "call"}[g.R.Intn(3)]}
+			case 2:
+				f.Act = "rule"
+				f.Rule = &hb.Rule{Class: hb.NotServingClasses[g.R.Intn(2)], Count: g.R.Range(1, 2), Server: -1, Level: []string{"action", "region"}[g.R.Intn(2)]}
+			case 3:
+				f.Act = "move"
+			case 4:
+				f.Act, f.Key = "split", g.KeyNear(ts.Splits, 3)
+			}
+			p.Faults = append(p.Faults, f)
+		}
+	}
 	return p
 }
 
